@@ -962,7 +962,8 @@ impl Vm {
           ),
         )
       },
-      ImportResult::CompileError => ExecutionSignal::Exit,
+      // the diagnostics were reported by the import, the program did not succeed
+      ImportResult::CompileError => self.set_exit(1),
     };
 
     self.pop_roots(2);
@@ -1044,7 +1045,8 @@ impl Vm {
           ),
         )
       },
-      ImportResult::CompileError => ExecutionSignal::Exit,
+      // the diagnostics were reported by the import, the program did not succeed
+      ImportResult::CompileError => self.set_exit(1),
     };
 
     self.pop_roots(2);
